@@ -3,8 +3,8 @@
    coq/Index/*Proofs.v.  Constants (START = ZSTD_WINDOW_START_INDEX, CURRENT_MAX, CHUNKSIZE_MAX, BLOCKSIZE_MAX,
    INDEXOVERFLOW_MARGIN, CHAINLOG_MAX, WINDOWLOG_MAX, ...) are regenerated from the current headers. *)
 From Coq Require Import ZArith List Bool.
-From ZV.Index Require Import Window Reduce Overflow History
-     OverflowProofs ReduceProofs CorrectProofs WindowProofs HistoryProofs TableProofs.
+From ZV.Index Require Import Window Reduce Overflow History MtJobs
+     OverflowProofs ReduceProofs CorrectProofs WindowProofs HistoryProofs TableProofs MtJobsProofs MtSerialProofs.
 Import ListNotations.
 Local Open Scope Z_scope.
 
@@ -380,3 +380,112 @@ Theorem ldm_table_stays_below_current :
     ldm_inv s' (p + sum_fst steps) /\ tbl_le (p + sum_fst steps - base (ldm_window s')) (ldm_table s').
 Proof. exact ldm_table_stays_below_current_lemma. Qed.
 Print Assumptions ldm_table_stays_below_current.
+
+(* ------------------------------------------------------------------------------------------------------------
+   Round 2: the counters of the multithreaded compressor that grow with the length of one frame (MtJobs.v).
+   ------------------------------------------------------------------------------------------------------------ *)
+
+(* 18. ZSTDMT job bookkeeping (nextJobID / doneJobID are `unsigned`, reset once per frame).  While fewer than
+   2^32 - jobIDMask jobs have been created, the 32-bit tests ("table is full", "first job", "jobs pending") say
+   exactly what unbounded counters say. *)
+Theorem mt_job_counters_exact_below_wrap :
+  forall N D mask,
+    0 <= D <= N -> 1 <= mask -> N + mask < two32 ->
+    let m := mkMtc (u32 N) (u32 D) mask in
+    mt_table_full m = ideal_table_full N D mask /\
+    mt_firstJob m = ideal_firstJob N /\
+    mt_jobs_pending m = ideal_jobs_pending N D /\
+    nextJobID (mt_post m) = N + 1 /\ doneJobID (mt_done m) = u32 (D + 1).
+Proof. exact mt_counters_exact_below_wrap_lemma. Qed.
+Print Assumptions mt_job_counters_exact_below_wrap.
+
+(* 19. ... and the property is REFUTED for the 32-bit counters beyond that (finding C15-zstdmt-job-counter-wraps):
+   from the start of a frame, 2^32 - jobIDMask flush calls succeed and leave both counters at 2^32 - jobIDMask;
+   every later call finds the EMPTY jobs table "full", creates no job, and cannot return. *)
+Theorem mt_frame_gets_stuck_refuted :
+  forall mask, 1 <= mask < two32 ->
+    let k := Z.to_nat (two32 - mask) in
+    mt_flush_calls k (mt_frame_start mask) = Some (mkMtc (two32 - mask) (two32 - mask) mask) /\
+    forall j, mt_flush_calls (k + S j) (mt_frame_start mask) = None.
+Proof. exact mt_frame_gets_stuck_lemma. Qed.
+Print Assumptions mt_frame_gets_stuck_refuted.
+
+Theorem mt_empty_table_declared_full_refuted :
+  forall mask D, 1 <= mask < two32 -> two32 - mask <= D < two32 ->
+    mt_table_full (mkMtc D D mask) = true /\ ideal_table_full D D mask = false /\
+    mt_flush_call (mkMtc D D mask) = None.
+Proof. exact mt_empty_table_declared_full. Qed.
+Print Assumptions mt_empty_table_declared_full_refuted.
+
+(* with a full table in flight the wrap is passed: job number 2^32 is then taken for the first job of the frame
+   (frame header written again, dictionary applied again) and the pending-jobs test answers "none" *)
+Theorem mt_first_job_confused_refuted :
+  forall mask, 1 <= mask < two32 ->
+    let m := mkMtc (two32 - 1) (two32 - 1 - mask) mask in
+    mt_table_full m = false /\ ideal_table_full (two32 - 1) (two32 - 1 - mask) mask = false /\
+    mt_firstJob (mt_post m) = true /\ ideal_firstJob (two32 - 1 + 1) = false /\
+    mt_jobs_pending (mt_post m) = false /\ ideal_jobs_pending (two32 - 1 + 1) (two32 - 1 - mask) = true.
+Proof. exact mt_first_job_confused. Qed.
+Print Assumptions mt_first_job_confused_refuted.
+
+(* the observer evaluated in the tie is the iteration the theorems speak about *)
+Theorem mt_flush_observer_sound :
+  forall fuel m n, let '(n', m') := mt_flush_until_stuck fuel m n in
+    n <= n' <= n + Z.of_nat fuel /\
+    mt_flush_calls (Z.to_nat (n' - n)) m = Some m' /\
+    (n' < n + Z.of_nat fuel -> mt_flush_call m' = None).
+Proof. exact mt_flush_until_stuck_ok. Qed.
+Print Assumptions mt_flush_observer_sound.
+
+Example mt_job_counters_example :
+  mt_flush_until_stuck 40 (mkMtc 4294967280 4294967280 3) 0 = (13, mkMtc 4294967293 4294967293 3).
+Proof. vm_compute. reflexivity. Qed.
+
+(* 20. the serial LDM window of ZSTDMT at the start of a frame (ZSTDMT_serialState_reset with a raw-content prefix):
+   whatever the size of the prefix, the index is exact and at most ZSTD_CURRENT_MAX, the loaded segment ends where the
+   prefix ends (finding C15-zstdmt-ldm-prefix-index-wraps, repaired: only the last ZSTD_CURRENT_MAX - START bytes are
+   loaded).  From there `ldm_index_never_overflows` (14) applies to the chunk steps of every job. *)
+Theorem mt_serial_ldm_load_exact :
+  forall lit dict n fw, 0 < n -> away_from_literal lit dict n ->
+    let '(w, lde) := mt_serial_ldm_load MT_SERIAL_DICT_LIMIT lit dict n fw in
+    window_exact w = true /\ nextSrc w = dict + n /\
+    nextSrc w - base w = Z.min n (CURRENT_MAX - START) + START /\ nextSrc w - base w <= CURRENT_MAX /\
+    dictLimit w = START /\ lowLimit w = START /\
+    (fw = false -> lde = nextSrc w - base w) /\ nbOvf w = 0 /\ (fw = true -> lde = 0).
+Proof. exact mt_serial_ldm_load_exact_lemma. Qed.
+Print Assumptions mt_serial_ldm_load_exact.
+
+(* ... and the limit is necessary: a loader without it wraps the index for every prefix of 2^32 - START bytes or more *)
+Theorem mt_serial_ldm_load_needs_limit :
+  forall lit dict n fw, two32 - START <= n -> away_from_literal lit dict n ->
+    window_exact (fst (mt_serial_ldm_load None lit dict n fw)) = false.
+Proof. exact mt_serial_ldm_load_needs_limit_lemma. Qed.
+Print Assumptions mt_serial_ldm_load_needs_limit.
+
+Example mt_serial_ldm_load_example :
+  let '(w, lde) := mt_serial_ldm_load MT_SERIAL_DICT_LIMIT 1000 5000000000 4400000000 false in
+  (nextSrc w - base w, lde, window_exact w) = (3670016000, 3670016000, true).
+Proof. vm_compute. reflexivity. Qed.
+
+(* 21. the serial LDM window of ZSTDMT over a whole frame: a raw-content prefix of ANY size (n = 0: none), then
+   any number of jobs, each at any address and of any size, cut in chunks of at most ZSTD_CHUNKSIZE_MAX (the code
+   cuts at 1 MiB): the invariant of the LDM window holds after every job with nextSrc as the current position
+   (index <= ZSTD_CURRENT_MAX between jobs) and every index computed on the way - the job start after the window
+   update, both ends of every chunk - is the exact pointer difference.  No frame size, number of jobs or number
+   of corrections appears.  (Every job goes through the chunk steps, whatever its size: the tiny-block gap of the
+   single-threaded path, 6.2, does not exist here.) *)
+Theorem mt_serial_ldm_never_overflows :
+  forall freq wl lit dict n fw tbl jobs,
+    0 <= wl <= WINDOWLOG_MAX -> 0 <= n -> away_from_literal lit dict n -> Forall job_ok jobs ->
+    let s0 := mt_serial_start lit dict n fw tbl in
+    mt_inv (mt_serial_jobs freq s0 wl jobs) /\ mt_serial_jobs_ok freq s0 wl jobs = true.
+Proof. exact mt_serial_ldm_never_overflows_lemma. Qed.
+Print Assumptions mt_serial_ldm_never_overflows.
+
+Example mt_serial_frame_example :
+  let s0 := mt_serial_start 1000 5000000000 4400000000 false [] in
+  let jobs := [(9400000000 + 64, [1048576; 1048576; 5000]); (9400000000 - 50000000, [1048576; 77])] in
+  0 <= 27 <= WINDOWLOG_MAX /\ away_from_literal 1000 5000000000 4400000000 /\
+  Forall job_ok jobs /\ mt_serial_jobs_ok false s0 27 jobs = true /\
+  nbOvf (ldm_window (mt_serial_jobs false s0 27 jobs)) = 1.
+Proof. exact mt_serial_frame_example_lemma. Qed.
